@@ -93,10 +93,15 @@ def _jdefault(o):
 
 
 def load_known_findings() -> list[dict]:
+    out = []
     p = VERIF / "known_findings.json"
-    if not p.exists():
-        return []
-    return json.loads(p.read_text())["findings"]
+    if p.exists():
+        out += json.loads(p.read_text())["findings"]
+    d = VERIF / "known_findings.d"
+    if d.is_dir():
+        for q in sorted(d.glob("*.json")):
+            out += json.loads(q.read_text())["findings"]
+    return out
 
 
 class Run:
